@@ -242,17 +242,25 @@ def i64Min : Int := -9223372036854775808
 
 def inI64 (z : Int) : Bool := decide (i64Min ≤ z) && decide (z ≤ (i64Max : Int))
 
-/-- Divisor of the digit band `digits` falls in (`None` above the last band). -/
-def bandDivisor (digits : Nat) : List (Nat × Nat × Nat) → Option Nat
+/-- Divisor and rounding of the digit band `digits` falls in (`None` above the last band). -/
+def bandDivisor (digits : Nat) : List (Nat × Nat × Nat × DivMode) → Option (Nat × DivMode)
   | [] => none
-  | (lo, hi, d) :: rest => if lo ≤ digits ∧ digits ≤ hi then some d else bandDivisor digits rest
+  | (lo, hi, d, m) :: rest =>
+    if lo ≤ digits ∧ digits ≤ hi then some (d, m) else bandDivisor digits rest
 
-/-- `TimeParser::normalize_integer_epoch` (`/` on `i128` truncates toward zero). -/
+/-- The arm's expression, as spelled in the source (generated `DivMode`): `n`, `n / d`
+(`i128` division truncates toward zero) or `n.div_euclid(d)` (Euclidean; floor for `d > 0`). -/
+def applyDiv : DivMode → Int → Nat → Int
+  | .ident, n, _ => n
+  | .trunc, n, d => Int.tdiv n d
+  | .floor, n, d => Int.ediv n d
+
+/-- `TimeParser::normalize_integer_epoch`. -/
 def normalizeIntegerEpoch (n : Int) : Option Int :=
   match bandDivisor (numDigits n.natAbs) epochBands with
   | none => none
-  | some d =>
-    let secs := Int.tdiv n d
+  | some (d, mode) =>
+    let secs := applyDiv mode n d
     if inI64 secs then some secs else none
 
 def isDigit (c : Char) : Bool := '0' ≤ c && c ≤ '9'
